@@ -34,10 +34,11 @@ const (
 	aNewTable
 	aChanges
 	aCloseIter
+	aTxnRejected // WriteTxn naming the handle of a table whose registration was rejected (duplicate name)
 	numActs
 )
 
-var actNames = []string{"txn", "read", "newTable", "changes", "closeIter"}
+var actNames = []string{"txn", "read", "newTable", "changes", "closeIter", "txnRejected"}
 
 type Act struct {
 	K      int   `json:"k"`
@@ -87,8 +88,8 @@ type worker struct {
 	stuck    bool
 	iters    []statedb.ChangeIterator[*acct]
 	// open transaction bookkeeping (for classification)
-	inTxn   bool
-	holding map[uint64]bool
+	inTxn         bool
+	holding       map[uint64]bool
 	pendingCommit []statedb.RWTable[*acct]
 }
 
@@ -116,6 +117,7 @@ type sched struct {
 	classes      map[string]bool
 	steps        int
 	keep         []any
+	rejected     statedb.RWTable[*acct] // handle returned together with ErrDuplicateTable
 }
 
 const grace = 8 * time.Second
@@ -224,6 +226,8 @@ func (s *sched) runWorker(w *worker) {
 				w.iters[0].Close()
 				w.iters = w.iters[1:]
 			}
+		case aTxnRejected:
+			s.doTxnRejected(w, ai, a)
 		}
 	}
 }
@@ -277,6 +281,40 @@ func (s *sched) doTxn(w *worker, ai int, a Act) {
 	}
 }
 
+// doTxnRejected requests a write transaction that names, besides registered
+// tables, the handle NewTable returned together with ErrDuplicateTable. The
+// request must be refused (WriteTxn panics with ErrTableNotRegistered) and
+// must leave nothing behind: no lock held, no transaction granted.
+func (s *sched) doTxnRejected(w *worker, ai int, a Act) {
+	var metas []statedb.TableMeta
+	for _, ti := range a.Tables {
+		metas = append(metas, s.table(ti))
+	}
+	// the rejected handle goes last or first
+	if a.Commit {
+		metas = append(metas, s.rejected)
+	} else {
+		metas = append([]statedb.TableMeta{s.rejected}, metas...)
+	}
+	var wtxn statedb.WriteTxn
+	panicked := func() (p bool) {
+		defer func() {
+			if r := recover(); r != nil {
+				p = true
+			}
+		}()
+		wtxn = s.db.WriteTxn(metas...)
+		return false
+	}()
+	s.mu.Lock()
+	s.classes["rejected_handle_request"] = true
+	s.mu.Unlock()
+	if !panicked {
+		wtxn.Abort()
+		s.fail("unregistered-granted", "worker %d action %d: WriteTxn(%v) was granted although one of the tables was never registered (its registration failed with ErrDuplicateTable): its writes would go to another table's slot without that table's lock", w.id, ai, names(metas))
+	}
+}
+
 func names(ms []statedb.TableMeta) []string {
 	var out []string
 	for _, m := range ms {
@@ -318,6 +356,12 @@ func run(c Case, own string) (res result) {
 		t.Insert(wtxn, &acct{ID: "acct", Bal: 100})
 		wtxn.Commit()
 		s.total += 100
+	}
+	// a handle whose registration is rejected: NewTable returns it together with the error
+	if rej, err := statedb.NewTable[*acct](s.db, "t0", acctIndex); err == nil {
+		panic("duplicate table name accepted")
+	} else {
+		s.rejected = rej
 	}
 	for i, acts := range c.Workers {
 		s.workers = append(s.workers, &worker{id: i, acts: acts, arrive: make(chan string), resume: make(chan struct{}), holding: map[uint64]bool{}})
@@ -642,6 +686,9 @@ func genCase(t *rapid.T, p profile) Case {
 		case aTxn:
 			a.Tables = rapid.SliceOfN(rapid.IntRange(0, 5), 1, 4).Draw(t, "tables")
 			a.Commit = rapid.IntRange(0, 3).Draw(t, "commit") != 0
+		case aTxnRejected:
+			a.Tables = rapid.SliceOfN(rapid.IntRange(0, 5), 0, 3).Draw(t, "tables")
+			a.Commit = rapid.Bool().Draw(t, "rejectedLast")
 		case aChanges:
 			a.Tables = []int{rapid.IntRange(0, 5).Draw(t, "table")}
 		}
@@ -685,18 +732,18 @@ func has(cl []string, x string) bool {
 	return false
 }
 
-const ruleC05 = "2-4 worker goroutines, each running 1-4 actions (write transactions over arbitrary overlapping/disjoint table lists in any order with duplicates that read a per-table counter, write counter+1 and transfer one unit between two of their tables, committed or aborted; snapshot reads checking the conserved cross-table sum; NewTable) over 2-4 initial tables; every hook point in WriteTxn/Commit/Abort/registerTable and every table-lock acquisition/release is a scheduling point and a generated schedule decides which worker proceeds (exactly one at a time). Oracle: the counter a transaction reads equals the increments committed (root stored) before it obtained the table; no table lock has two holders; every snapshot shows the conserved sum; at the end each counter equals its committed increments, every table ever registered is in the root and can be written and read back. Non-trivial = two workers were inside a write transaction at the same time; distinct by case encoding."
+const ruleC05 = "2-4 worker goroutines, each running 1-4 actions (write transactions over arbitrary overlapping/disjoint table lists in any order with duplicates that read a per-table counter, write counter+1 and transfer one unit between two of their tables, committed or aborted; snapshot reads checking the conserved cross-table sum; NewTable; WriteTxn requests naming a table handle whose registration was rejected as duplicate - these must be refused and leave nothing behind) over 2-4 initial tables; every hook point in WriteTxn/Commit/Abort/registerTable and every table-lock acquisition/release is a scheduling point and a generated schedule decides which worker proceeds (exactly one at a time). Oracle: the counter a transaction reads equals the increments committed (root stored) before it obtained the table; no table lock has two holders; every snapshot shows the conserved sum; at the end each counter equals its committed increments, every table ever registered is in the root and can be written and read back. Non-trivial = two workers were inside a write transaction at the same time; distinct by case encoding."
 
 func TestC05Serialised(t *testing.T) {
-	schedTest(t, "C05", "TestC05Serialised", ruleC05, profile{acts: []int{aTxn, aTxn, aTxn, aTxn, aRead, aNewTable}}, func(cl []string) bool {
+	schedTest(t, "C05", "TestC05Serialised", ruleC05, profile{acts: []int{aTxn, aTxn, aTxn, aTxn, aTxn, aTxn, aRead, aNewTable, aNewTable, aTxnRejected}}, func(cl []string) bool {
 		return has(cl, "two_inside") || has(cl, "newtable_while_txn_open")
 	})
 }
 
-const ruleC10 = "the C05 workers plus creating and closing change iterators (Close opens its own write transaction) and table registration; same hook-driven scheduler with a mirror of table-lock ownership. Oracle: the run ends with every worker finished; a state in which every unfinished worker waits for a table lock held by another waiting worker is a deadlock (decided without timers); a worker about to lock a table lock it already holds is a self-deadlock; a released worker that the mirror says is not waiting for a held table lock must reach its next hook point while all others stay parked - if it is found blocked in a synchronisation primitive after the grace period, an open transaction delays a transaction that shares no table with it (or a reader). Non-trivial = two workers were inside a write transaction at once and the schedule had real choice points; distinct by case encoding."
+const ruleC10 = "the C05 workers (incl. refused WriteTxn requests naming an unregistered table handle, which must not leave locks held) plus creating and closing change iterators (Close opens its own write transaction) and table registration; same hook-driven scheduler with a mirror of table-lock ownership. Oracle: the run ends with every worker finished; a state in which every unfinished worker waits for a table lock held by another waiting worker is a deadlock (decided without timers); a worker about to lock a table lock it already holds is a self-deadlock; a released worker that the mirror says is not waiting for a held table lock must reach its next hook point while all others stay parked - if it is found blocked in a synchronisation primitive after the grace period, an open transaction delays a transaction that shares no table with it (or a reader). Non-trivial = two workers were inside a write transaction at once and the schedule had real choice points; distinct by case encoding."
 
 func TestC10NoDeadlock(t *testing.T) {
-	schedTest(t, "C10", "TestC10NoDeadlock", ruleC10, profile{acts: []int{aTxn, aTxn, aTxn, aTxn, aRead, aNewTable, aChanges, aChanges, aCloseIter}}, func(cl []string) bool {
+	schedTest(t, "C10", "TestC10NoDeadlock", ruleC10, profile{acts: []int{aTxn, aTxn, aTxn, aTxn, aTxn, aTxn, aRead, aNewTable, aChanges, aChanges, aCloseIter, aTxnRejected}}, func(cl []string) bool {
 		return has(cl, "two_inside") && has(cl, "choice_points")
 	})
 }
